@@ -47,3 +47,32 @@ func VerifStringsModelSelfTest() {
 		verifrt.Reach("not-found")
 	}
 }
+
+// VerifRegexSeqSelfTest: the program-simulation model of regexp.MatchString on
+// character sequences (verifrt.Chars) against the same facts as VerifRegexModelSelfTest,
+// for every length 0..9.
+func VerifRegexSeqSelfTest() {
+	n := verifrt.Choice("len", 10)
+	s := verifrt.Chars("s", n, "halo 1Fgx")
+	m1, err := regexp.MatchString("hallo [0-9a-fA-F]*", s)
+	verifrt.Assert(err == nil, "regexseq-compiles")
+	verifrt.Observe("m1", m1)
+	verifrt.Assert(m1 == strings.Contains(s, "hallo "), "regexseq-unanchored-is-contains")
+	m2, _ := regexp.MatchString("^(?:hallo [0-9a-fA-F]*)$", s)
+	verifrt.Observe("m2", m2)
+	verifrt.Assert(verifrt.Implies(m2, strings.HasPrefix(s, "hallo ")), "regexseq-anchored-prefix")
+	verifrt.Assert(verifrt.Implies(m2, !strings.Contains(s, "g")), "regexseq-anchored-no-g")
+	verifrt.Assert(verifrt.Implies(m2, !strings.Contains(s, "x")), "regexseq-anchored-no-x")
+	verifrt.Assert(verifrt.Implies(s == "hallo 1F", m2), "regexseq-example")
+	verifrt.Assert(verifrt.Implies(s == "hallo 1g", !m2), "regexseq-counterexample")
+	verifrt.Assert(verifrt.Implies(m2, m1), "regexseq-anchored-implies-search")
+	m3, _ := regexp.MatchString("^(lo(0|1[0-9][0-9]|2([0-4][0-9]|5[0-5])|[1-9][0-9]|[1-9]))$", s)
+	verifrt.Assert(verifrt.Implies(m3, strings.HasPrefix(s, "lo")), "regexseq-lo-prefix")
+	verifrt.Assert(verifrt.Implies(s == "lo1", m3), "regexseq-lo1")
+	verifrt.Assert(verifrt.Implies(s == "lo", !m3), "regexseq-lo-alone")
+	if m2 {
+		verifrt.Reach("seq-match")
+	} else {
+		verifrt.Reach("seq-nomatch")
+	}
+}
